@@ -224,6 +224,13 @@ def replay(job, rec):
                     continue
                 if prop in YPROP_MEASURE and YPROP_MEASURE[prop] not in scn.get("ymeasures", ()):
                     continue
+                if isinstance(e, dict) and e.get("k") == "touch":
+                    # read for its side effects only; whatever it returns or raises
+                    try:
+                        observe(part, prop, scn, cfg, aux)
+                    except Exception:  # noqa
+                        pass
+                    continue
                 evals += 1
                 nwarn = len(wlog)
                 try:
@@ -264,6 +271,8 @@ def replay(job, rec):
                         continue
                     if prop in YPROP_MEASURE and YPROP_MEASURE[prop] not in scn.get("ymeasures", ()):
                         continue
+                    if isinstance(e, dict) and e.get("k") == "touch":
+                        continue
                     try:
                         obs = observe(part, prop, scn, cfg, aux)
                     except Exception:  # noqa
@@ -297,6 +306,12 @@ def replay(job, rec):
                     if prop in skip or (only and prop not in only):
                         continue
                     if prop in YPROP_MEASURE and YPROP_MEASURE[prop] not in scn.get("ymeasures", ()):
+                        continue
+                    if isinstance(e, dict) and e.get("k") == "touch":
+                        try:
+                            observe(part, prop, scn, cfg, aux)
+                        except Exception:  # noqa
+                            pass
                         continue
                     try:
                         obs = observe(part, prop, scn, cfg, aux)
